@@ -315,12 +315,58 @@ pub fn digitise_pad(sig: &[f64]) -> Vec<i16> {
     wf
 }
 
+/// ADC packet with data suppression enabled: the waveform is cut after `keep` samples (>= 65), keep_bit set,
+/// keep_last 34 (the smallest legal value), requested_samples that of the full waveform.
+pub fn wire_packet_suppressed(board: &str, ch: u8, wf: &[i16], keep: usize) -> Vec<u8> {
+    let keep = keep.clamp(65, wf.len());
+    ref_adc_encode(
+        &RefAdc {
+            accepted_trigger: 4,
+            module: 0,
+            channel: 128 + ch,
+            requested: (wf.len() + 2) as u16,
+            event_timestamp: 7,
+            mac: Some(a16_mac(board)),
+            trigger_offset: Some(0),
+            build_timestamp: Some(0),
+            waveform: wf[..keep].to_vec(),
+            baseline: adc_floor_mean64(wf) as i16,
+            keep_last: 34,
+            keep_bit: true,
+            suppression: true,
+        },
+        0,
+    )
+}
+
 /// Pack calibrated signals into banks (TRG first, then wires, then pads).
 pub fn banks(maps: &Maps, sig: &Signals, ts: u32) -> Vec<(String, Vec<u8>)> {
+    banks_with(maps, sig, ts, None)
+}
+
+/// `suppress` = Some(threshold): wire packets as the firmware sends them with data suppression enabled - cut 20 samples
+/// after the last sample that is more than `threshold` counts away from the baseline, and a data-less 16-byte packet
+/// for wires that never cross it.
+pub fn banks_with(maps: &Maps, sig: &Signals, ts: u32, suppress: Option<i16>) -> Vec<(String, Vec<u8>)> {
     let mut out = vec![("ATAT".to_string(), trg_packet(ts))];
     for (&w, s) in &sig.wires {
         let (board, ch) = maps.wire[w];
-        out.push((wire_bank_name(board, ch), wire_packet(board, ch, &digitise_wire(s))));
+        let wf = digitise_wire(s);
+        match suppress {
+            None => out.push((wire_bank_name(board, ch), wire_packet(board, ch, &wf))),
+            Some(thr) => match wf.iter().rposition(|&x| (x - WIRE_BASELINE).abs() > thr) {
+                Some(last) => out.push((wire_bank_name(board, ch), wire_packet_suppressed(board, ch, &wf, last + 21))),
+                None => {
+                    // data-less form: type 1, version 3, trigger 4, module 0, channel, requested, timestamp 7, footer 0x2000, baseline
+                    let mut v = vec![1u8, 3, 0, 4, 0, 128 + ch];
+                    v.extend(((wf.len() + 2) as u16).to_be_bytes());
+                    v.extend([0, 0, 0, 7]);
+                    v.extend(0x2000u16.to_be_bytes());
+                    v.extend((adc_floor_mean64(&wf) as i16).to_be_bytes());
+                    out.push((wire_bank_name(board, ch), v));
+                }
+            },
+        }
     }
     let mut groups: BTreeMap<(&'static str, u8), Vec<(u16, Vec<i16>)>> = BTreeMap::new();
     for (&(col, row), s) in &sig.pads {
